@@ -6,6 +6,6 @@ PROP = "C03"
 
 def run(rep, tier):
     return run_core(
-        rep, "C03", ['flat_s', 'chain_s', 'ctrl', 'xmod', 'nest', 'val', 'rel2'], ['flat', 'flat3_s', 'chain_m', 'ctrl', 'xmod_l', 'nest', 'val', 'rel3', 'prov'], tier,
+        rep, "C03", ['flat_s', 'chain_s', 'ctrl', 'xmod', 'nest', 'val', 'rel2', 'prov'],['flat', 'flat3_s', 'chain_m', 'ctrl', 'xmod_l', 'nest', 'val', 'rel3', 'prov'], tier,
         "every design x register state x input valuation, both schedulers: run(T) implies ready(T), every method of the static call tree ready (also behind false conditions / enable_call), every validate_arguments predicate true on the arguments of the chain-enabled calls, and every ready-dependency source running; the ready signal itself is compared with the reference; non-trivial = valuations in which a ready transaction is blocked only by a callee, only by a validator, only by a ready-dependency",
         scheds=("eager", "rr"), floors={"designs_simulated": 500, "transitions": 100000, "nt_blocked_by_callee_ready": 10000, "nt_blocked_by_validator": 100, "nt_blocked_by_ready_dependency": 100})
